@@ -102,7 +102,7 @@ def check(run, prog, tier):
     run.ob("K1", f"{hs.qual}:answer-built-from-the-entry", bool(oks), loc(hs), f"the acknowledged subscription is {show(subterm)[:80] if subterm else '?'}")
 
     # ------------------------------------------------------------------ K2
-    eng2 = engine(prog, InlineOnly(names=(nack.qual,), props=False, max_depth=1, unroll=2))
+    eng2 = engine(prog, InlineOnly(names=(nack.qual,), props=False, max_depth=1, unroll=3 if tier == "thorough" else 2))
     aent = P(ahs, param_at(ahs, 0, "entry"))
     aaddr = P(ahs, param_at(ahs, 1, "addr"))
     apaths = eng2.paths(ahs, recv=ANN)
